@@ -20,6 +20,7 @@ import StarsimModel.Model.Compartments
 import StarsimModel.Generated.Treat_syphilis
 import StarsimModel.Lemmas.InfectionCount
 import StarsimModel.Lemmas.SimCore
+import StarsimModel.Lemmas.Closed
 
 namespace StarsimModel.C13
 open StarsimModel.Compartments
@@ -709,6 +710,45 @@ example : (∀ a ∈ exSim.pop, Good a) ∧ (run exSim exEvents).bad = false := 
   · decide +kernel
 example : (run exSim exEvents).rows =
     [⟨0, 4, 0, 0, 1, 3, 0, 3, 3, 3, 4⟩, ⟨1, 2, 2, 0, 0, 2, 0, 0, 3, 2, 2⟩, ⟨2, 2, 0, 2, 0, 1, 1, 0, 3, 1, 2⟩] := by decide +kernel
+
+/-! ### Closed under the transmission model: the admissibility hypothesis discharged
+
+`SimCore.closedStep` takes the `set_prognoses` call of a step from `Transmission.infect` (Model/Transmission.lean, the
+model of `Infection.infect` whose kernel expressions are regenerated from the source and which C12's correspondence ties
+to the real transmission step) applied to the population as it stands when transmission runs.  The transmission model's
+guarantee — a target is susceptible — discharges the hypothesis `bad = false` of the theorems above. -/
+
+/-- **Partition over whole closed runs, unconditionally**: any networks, edges, betas, compared random numbers (≥ 0),
+    relative factors, births, background deaths, prognosis draws, any number of steps. -/
+theorem C13_closed_run_partition (s : Sim) (xs : List ClosedEv) (h0 : ∀ a ∈ s.pop, Good a) (hb : s.bad = false)
+    (hr : ∀ x ∈ xs, NonnegRands x.nets) :
+    (closedRun s xs).bad = false ∧
+    ∀ a ∈ (closedRun s xs).pop, a.present = true → a.alive = true ∧ Sir.partition a.fl = true :=
+  closedRun_partition xs s h0 hb hr
+
+/-- … and the recorded compartment sizes add up to the recorded number alive in every row. -/
+theorem C13_closed_run_rows_balanced (s : Sim) (xs : List ClosedEv) (h0 : ∀ a ∈ s.pop, Good a) (hb : s.bad = false)
+    (hrow : s.rows = []) (hr : ∀ x ∈ xs, NonnegRands x.nets) :
+    ∀ r ∈ (closedRun s xs).rows, r.nS + r.nI + r.nR = r.nAlive ∧ r.prevNum = r.nI ∧ r.prevDen = r.nAlive :=
+  closedRun_rows_balanced xs s h0 hb (by rw [hrow]; intro r h; cases h) hr
+
+/-- non-vacuity: agent 1 (infectious) infects agent 0 over the edge 0–1 in the backward direction in the first step and
+    recovers in the second; agent 2 is never reached -/
+def exClosed : ClosedEv :=
+  { births := 0, background := [], relSus := fun _ => 1, relTrans := fun _ => 1, dur := fun _ => 3, willDie := fun _ => false,
+    nets := [{ edges := [{ p1 := 0, p2 := 1, r0 := 1 / 2, r1 := 1 / 4 }, { p1 := 0, p2 := 2, r0 := 9 / 10, r1 := 9 / 10 }], b0 := 1 / 2, b1 := 1 / 2 }] }
+def exClosedSim : Sim :=
+  ⟨0, [⟨true, true, none, ⟨true, false, false⟩, Gen.Sir.Timers.const none⟩,
+       ⟨true, true, none, ⟨false, true, false⟩, ⟨some 0, some 1, none⟩⟩,
+       ⟨true, true, none, ⟨true, false, false⟩, Gen.Sir.Timers.const none⟩], [], false⟩
+example : NonnegRands exClosed.nets ∧ (closedRun exClosedSim [exClosed, exClosed]).bad = false ∧
+    (closedRun exClosedSim [exClosed, exClosed]).rows.map (fun r => (r.nS, r.nI, r.nR)) = [(1, 2, 0), (1, 1, 1)] := by
+  refine ⟨?_, by decide +kernel, by decide +kernel⟩
+  intro n hn e he d
+  simp only [exClosed, List.mem_cons, List.mem_nil_iff, or_false] at hn
+  subst hn
+  simp only [List.mem_cons, List.mem_nil_iff, or_false] at he
+  rcases he with rfl | rfl <;> cases d <;> decide +kernel
 end wholeruns
 
 end StarsimModel.C13
